@@ -433,11 +433,12 @@ PVarDecls(T, i, ni, acc) ==  \* 12.2 after `var` or a comma
 PCaseBody(T, i, acc) ==      \* StatementList of a clause: up to case / default / }
     LET tk == Tk(T, i) IN
     IF IsKIn(tk, {"case", "default"}) \/ IsP(tk, "}") THEN Ok(acc, i)
-    ELSE IF IsEOF(tk) THEN Fail(i, "syntax")
+    ELSE IF IsEOF(tk) THEN (IF D("DP22_switch_unterminated") THEN Ok(acc, i) ELSE Fail(i, "syntax"))
     ELSE LET s == PStmt(T, i, FALSE) IN IF ~s.ok THEN s ELSE PCaseBody(T, s.i, Append(acc, s.n))
 PCases(T, i, acc, sawDefault) ==   \* 12.11 CaseBlock after "{"
     LET tk == Tk(T, i) IN
     IF IsP(tk, "}") THEN Ok(acc, i + 1)
+    ELSE IF IsEOF(tk) /\ D("DP22_switch_unterminated") THEN Ok(acc, i)      \* otto: the case block may end with the input
     ELSE IF IsK(tk, "default") THEN
         (IF sawDefault \/ ~IsP(Tk(T, i + 1), ":") THEN Fail(i, "syntax")
          ELSE LET b == PCaseBody(T, i + 2, <<>>)
